@@ -125,6 +125,18 @@ class Coin:
         return (self.worth, self.worth)
 
 
+class Charm:
+    """a plain attribute object one of whose attributes is literally named `_type` (the key the save format uses as its
+    own marker)"""
+
+    def __init__(self, name, kind):
+        self.name = name
+        self._type = kind
+
+    def kind(self):
+        return (self._type is None, self.name is None)
+
+
 class Tally:
     """an object the story uses by calling it (a callable instance is data, not an import binding)"""
 
@@ -153,7 +165,7 @@ class Sealed:
         return [self.tag, type(self.body).__name__]
 '''
 
-STORY_SRC = '''from c06mod import Plain, Secret, Box, Hero, helper, Card, Coin, Sealed, Tally
+STORY_SRC = '''from c06mod import Plain, Secret, Box, Hero, helper, Card, Coin, Sealed, Tally, Charm
 from bardic.stdlib.economy import Wallet
 from bardic.stdlib.inventory import Inventory
 from bardic.stdlib.relationship import Relationship
@@ -307,7 +319,7 @@ def gen(rng, depth, py_only=False, unsupported=False):
     if k < 0.97:
         return ("wallet", rng.choice([0, 5, 30, 1000]))
     if py_only and rng.random() < 0.45:
-        return (rng.choice(["card", "coin", "sealed", "tally"]), sub(), sub())
+        return (rng.choice(["card", "coin", "sealed", "tally", "charm"]), sub(), sub())
     if py_only and rng.random() < 0.5:
         return ("rel", rng.choice(["Alex", "Sam"]), rng.choice([0, 35, 60, 100]), rng.choice([0, 50, 100]),
                 rng.choice([-10, 0, 4, 10]), rng.sample(["past", "work", "family"], rng.randint(0, 3)))
@@ -346,6 +358,8 @@ def build(w: World, s):
         return m.Sealed(build(w, s[1]), build(w, s[2]))
     if t == "tally":
         return m.Tally(build(w, s[1]), build(w, s[2]))
+    if t == "charm":
+        return m.Charm(build(w, s[1]), build(w, s[2]))
     if t == "wallet":
         return w.Wallet(s[1])
     if t == "inventory":
@@ -388,7 +402,7 @@ def spec_stats(s, depth=1):
         kids = s[1]
     elif t == "dict":
         kids = [x for _, x in s[1]]
-    elif t in ("plain", "secret", "card", "coin", "sealed", "tally"):
+    elif t in ("plain", "secret", "card", "coin", "sealed", "tally", "charm"):
         kids = [s[1], s[2]]
     elif t == "box":
         kids = [s[1], s[2]] + list(s[3])
@@ -564,6 +578,8 @@ def probes(w: World, o):
         return (len(o.show()),)
     if isinstance(o, m.Tally):
         return (o(),)
+    if isinstance(o, m.Charm):
+        return (o.kind(),)
     return ()
 
 
@@ -866,7 +882,7 @@ def run(tier: str, seed: int) -> int:
             state_case(f"py:{sub_seed}", specs, coq=False)
             for s in specs.values():
                 depth, kinds, nested = spec_stats(s)
-                for kk in kinds & {"rel", "float", "card", "coin", "sealed", "tally"}:
+                for kk in kinds & {"rel", "float", "card", "coin", "sealed", "tally", "charm"}:
                     bump(dist["kinds"], kk)
                 chk.count(("p", repr(s)), nested >= 1 and depth >= 3)
 
